@@ -579,6 +579,17 @@ Definition admits (f : cfg) (m : method_t) (typed : bool) (x : caller) (o : obs)
            end
        end.
 
+(** the flag sets below f that matter for method m (a repaired defect makes the implementation
+    behave like the model with that flag off: the check stays silent) *)
+Definition sub_cfgs (f : cfg) (m : method_t) : list cfg :=
+  let opts (x : bool) := if x then [true; false] else [false] in
+  let ug := match defect_of m with
+            | Some n => if memN n (d_unguarded f) then [d_unguarded f; filter (fun x => negb (x =? n)%N) (d_unguarded f)] else [d_unguarded f]
+            | None => [d_unguarded f]
+            end in
+  flat_map (fun a => flat_map (fun b => map (fun u => {| d_dispatch_all := a; d_add_unjournaled := b; d_unguarded := u |}) ug)
+                              (opts (d_add_unjournaled f))) (opts (d_dispatch_all f)).
+
 (** one case: the call as issued (contract, method, audit, arguments well typed?, caller relation bits) and what was observed *)
 Record case := { c_contract : string; c_method : string; c_typed : bool; c_caller : caller; c_obs : obs }.
 
@@ -592,7 +603,7 @@ Definition judge_call (f : cfg) (k : case) : verdict :=
       | None => V_domain 1
       | Some c =>
           if negb (P_call c (c_caller k) (c_obs k)) then V_propfalse (explaining_flag f m)
-          else if admits f m (c_typed k) (c_caller k) (c_obs k) then V_ok
+          else if existsb (fun f' => admits f' m (c_typed k) (c_caller k) (c_obs k)) (sub_cfgs f m) then V_ok
           else V_mismatch 0
       end
   end.
